@@ -2,7 +2,10 @@ package rules
 
 import (
 	"fmt"
+	"go/ast"
+	"go/constant"
 	"go/token"
+	"go/types"
 	"sort"
 	"strings"
 
@@ -163,4 +166,234 @@ func (c *Ctx) PaletteResizeCopiesAll() []core.Ob {
 		o.Status, o.Got = core.Violated, "no copy loop found in the resize branch"
 	}
 	return []core.Ob{o}
+}
+
+// HeightMapKeys implements T-HEIGHTMAP: ChunkToSave stores each of the six
+// height maps under a key, and ChunkFromSave loads each field from the same key.
+func (c *Ctx) HeightMapKeys() []core.Ob {
+	mk := func(key, want string) core.Ob {
+		return core.Ob{Rule: "T-HEIGHTMAP", Key: key, Want: want, Armed: true, Status: core.OK}
+	}
+	to, from := c.Fn("level.ChunkToSave"), c.Fn("level.ChunkFromSave")
+	if to == nil || from == nil {
+		o := mk("anchors", "ChunkToSave and ChunkFromSave exist")
+		o.Status, o.Got = core.Violated, "not found"
+		return []core.Ob{o}
+	}
+	fieldOfHM := func(v ssa.Value) string {
+		// receiver of .Raw(): load of FieldAddr(FieldAddr(c, HeightMaps), F)
+		for d := 0; d < 4; d++ {
+			if u, ok := v.(*ssa.UnOp); ok {
+				v = u.X
+				continue
+			}
+			break
+		}
+		if fa, ok := v.(*ssa.FieldAddr); ok {
+			if st, ok := deref(fa.X.Type()).Underlying().(*types.Struct); ok {
+				return st.Field(fa.Field).Name()
+			}
+		}
+		return ""
+	}
+	strConst := func(v ssa.Value) (string, bool) {
+		k, ok := v.(*ssa.Const)
+		if !ok || k.Value == nil || k.Value.Kind() != constant.String {
+			return "", false
+		}
+		return constant.StringVal(k.Value), true
+	}
+	// ChunkToSave: MapUpdate{Key: const, Value: call Raw(recv)}
+	save := map[string]string{}
+	for _, b := range to.Blocks {
+		for _, in := range b.Instrs {
+			mu, ok := in.(*ssa.MapUpdate)
+			if !ok {
+				continue
+			}
+			key, ok := strConst(mu.Key)
+			if !ok {
+				continue
+			}
+			if cl, ok := mu.Value.(*ssa.Call); ok && strings.HasSuffix(calleeName(cl.Common()), "level.(BitStorage).Raw") {
+				save[key] = fieldOfHM(cl.Common().Args[0])
+			}
+		}
+	}
+	// ChunkFromSave: Store to FieldAddr(HeightMaps literal, F) of NewBitStorage(_, _, Lookup(map, const))
+	load := map[string]string{}
+	for _, b := range from.Blocks {
+		for _, in := range b.Instrs {
+			st, ok := in.(*ssa.Store)
+			if !ok {
+				continue
+			}
+			fa, ok := st.Addr.(*ssa.FieldAddr)
+			if !ok {
+				continue
+			}
+			stt, ok := deref(fa.X.Type()).Underlying().(*types.Struct)
+			if !ok {
+				continue
+			}
+			cl, ok := st.Val.(*ssa.Call)
+			if !ok || !strings.HasSuffix(calleeName(cl.Common()), "level.NewBitStorage") {
+				continue
+			}
+			if lk, ok := cl.Common().Args[2].(*ssa.Lookup); ok {
+				if key, ok := strConst(lk.Index); ok {
+					load[key] = stt.Field(fa.Field).Name()
+				}
+			}
+		}
+	}
+	var obs []core.Ob
+	var keys []string
+	for k := range save {
+		keys = append(keys, k)
+	}
+	sort.Strings(keys)
+	for _, k := range keys {
+		o := mk("key:"+k, "the height map saved under "+k+" is loaded back into the same field")
+		o.Pos = c.P.Pos(from.Pos())
+		if load[k] != save[k] {
+			o.Status, o.Got = core.Violated, fmt.Sprintf("saved from field %s, loaded into field %s", save[k], load[k])
+		} else {
+			o.Got = save[k]
+		}
+		obs = append(obs, o)
+	}
+	n := mk("six-maps", "all six height maps are converted in both directions")
+	if len(save) != 6 || len(load) != 6 {
+		n.Status, n.Got = core.Violated, fmt.Sprintf("%d saved, %d loaded", len(save), len(load))
+	}
+	obs = append(obs, n)
+	return obs
+}
+
+// intCaseClasses: the partition of integers induced by a switch over int
+// constants in fn: each class is the sorted list of case constants of one
+// clause ("default" for the default clause).
+func (c *Ctx) intCaseClasses(fnName string) ([]string, string) {
+	fn := c.Fn(fnName)
+	if fn == nil {
+		return nil, fnName + " not found"
+	}
+	fd, pk := c.astFuncDecl(fn)
+	if fd == nil {
+		return nil, "no syntax for " + fnName
+	}
+	var classes []string
+	found := false
+	ast.Inspect(fd.Body, func(n ast.Node) bool {
+		sw, ok := n.(*ast.SwitchStmt)
+		if !ok || found {
+			return !found
+		}
+		var cls []string
+		for _, s := range sw.Body.List {
+			cc := s.(*ast.CaseClause)
+			if cc.List == nil {
+				cls = append(cls, "default")
+				continue
+			}
+			var vs []string
+			for _, e := range cc.List {
+				tv, ok := pk.TypesInfo.Types[e]
+				if !ok || tv.Value == nil || tv.Value.Kind() != constant.Int {
+					return true
+				}
+				vs = append(vs, tv.Value.ExactString())
+			}
+			cls = append(cls, strings.Join(vs, ","))
+		}
+		if len(cls) >= 3 {
+			classes, found = cls, true
+		}
+		return !found
+	})
+	if !found {
+		return nil, "no switch over integer constants in " + fnName
+	}
+	sort.Strings(classes)
+	return classes, ""
+}
+
+// PaletteConfig implements T-PALCFG.
+func (c *Ctx) PaletteConfig() []core.Ob {
+	var obs []core.Ob
+	for _, cfg := range []struct{ name, bits, create, ctor string }{
+		{"states", "level.(statesCfg).bits", "level.(statesCfg).create", "level.NewStatesPaletteContainerWithData"},
+		{"biomes", "level.(biomesCfg).bits", "level.(biomesCfg).create", "level.NewBiomesPaletteContainerWithData"},
+	} {
+		o := core.Ob{Rule: "T-PALCFG", Key: cfg.name + ":case-partitions", Armed: true, Status: core.OK,
+			Want: "bits(), create() and the WithData constructor of the " + cfg.name + " configuration split the bits-per-entry values into the same classes"}
+		var parts []string
+		bad := ""
+		for _, f := range []string{cfg.bits, cfg.create, cfg.ctor} {
+			cls, why := c.intCaseClasses(f)
+			if why != "" {
+				bad = why
+				break
+			}
+			parts = append(parts, strings.Join(cls, " | "))
+		}
+		if bad != "" {
+			o.Status, o.Got = core.Violated, bad
+		} else if parts[0] != parts[1] || parts[1] != parts[2] {
+			o.Status, o.Got = core.Violated, "bits: "+parts[0]+" ;; create: "+parts[1]+" ;; WithData: "+parts[2]
+		} else {
+			o.Got = parts[0]
+		}
+		if fn := c.Fn(cfg.bits); fn != nil {
+			o.Pos = c.P.Pos(fn.Pos())
+		}
+		obs = append(obs, o)
+		// palette capacity = 1 << recorded bits in create()
+		cr := c.Fn(cfg.create)
+		if cr == nil {
+			continue
+		}
+		k := 0
+		for _, b := range cr.Blocks {
+			for _, in := range b.Instrs {
+				ms, ok := in.(*ssa.MakeSlice)
+				if !ok {
+					continue
+				}
+				k++
+				p := core.Ob{Rule: "T-PALCFG", Key: fmt.Sprintf("%s:create-capacity#%d", cfg.name, k), Pos: c.P.Pos(ms.Pos()), Func: core.FnName(cr), Armed: true, Status: core.OK,
+					Want: "an indirect palette built by create() has capacity 1<<bits for the bits it records"}
+				// find the bits stored into the palette struct in the same block
+				var bitsV ssa.Value
+				for _, in2 := range b.Instrs {
+					if st, ok := in2.(*ssa.Store); ok {
+						if fa, ok := st.Addr.(*ssa.FieldAddr); ok {
+							if stt, ok := deref(fa.X.Type()).Underlying().(*types.Struct); ok && stt.Field(fa.Field).Name() == "bits" {
+								bitsV = st.Val
+							}
+						}
+					}
+				}
+				capOK := false
+				if bitsV != nil {
+					cv := stripConv(ms.Cap)
+					if kc, ok := constIntVal(cv); ok {
+						if kb, ok := constIntVal(bitsV); ok && kc == 1<<uint(kb) {
+							capOK = true
+						}
+					} else if bo, ok := cv.(*ssa.BinOp); ok && bo.Op == token.SHL {
+						if one, ok := constIntVal(bo.X); ok && one == 1 && stripConv(bo.Y) == stripConv(bitsV) {
+							capOK = true
+						}
+					}
+				}
+				if !capOK {
+					p.Status, p.Got = core.Violated, "capacity is not 1<<bits of the palette being created (the palette upgrades too early or too late)"
+				}
+				obs = append(obs, p)
+			}
+		}
+	}
+	return obs
 }
